@@ -11,6 +11,23 @@ Every fit case is one or two REAL calls of `fit` on one real Positive/Complex/De
   * a recording callback (epoch / batch boundaries).
   In ~20 % of the cases (and in fixed cases that always run first) `fit` is called a SECOND time on the same state
   with another lr / scheduler / k / negative batch size: every per-step relation applies unchanged to the second run.
+SAME-OBJECT HISTORIES (fixed ones run first, before any time budget; ~40 % of the generated cases): fit -> mutation(s) ->
+  fit [-> mutation(s) -> fit] on ONE state object, with the same callback object, the same data tensor / array, bases array
+  and optimizer_args / scheduler_args dict objects (contents replaced in place) handed to every call.  Mutations = what the
+  library offers or tolerates: state.reinitialize_parameters(); rbm.initialize_parameters([zero_weights]); re-binding one or
+  several parameters (rbm.weights = nn.Parameter(..)); replacing a whole network through the rbm_am / rbm_ph setter (also by
+  one with another number of hidden units); p.data = t; p.data.copy_(t); p.copy_(t) under no_grad; rbm.load_state_dict;
+  state.load(file); a step of the user's own optimizer (leaves stale .grad behind); NaN written into the .grad tensors a fit
+  left behind; nothing at all (continued training) and the VERY SAME fit() call again.  Additionally a callback of the harness
+  edits live parameters IN PLACE at the start of a chosen batch of a running fit.  The observation points resolve the
+  state's networks / parameters at the moment of use (state.<network>.<name>), and after every mutation the oracle is the one
+  of a fresh object evaluated on the CURRENT parameters, plus the identity-free relation
+  live parameters after the batch - live parameters at the batch == -lr_epoch * (numpy CD gradient)   (lr_epoch from THIS
+  call's lr and StepLR arguments), whatever tensors the optimizer holds.
+  The public per-batch method compute_batch_gradients is also called directly several times on one state with the SAME
+  sample / negative-batch tensors and bases array, with the same mutations or in-place refills of those buffers / another k in
+  between, and with NaN written into the tensors it returned; vector_to_grads twice on one network (re-initialised /
+  one parameter re-bound / the same vector object refilled / parameters passed as a list).
 
 Property oracle (independent numpy, on what the optimizer saw): for every optimizer step
   grad(rbm_am) == positive_phase - (sum_{v in vk} grad E(v)) / |neg_batch|   (grad E recomputed in numpy), where vk
@@ -43,12 +60,18 @@ import numpy as np
 import gen
 
 RULE = ("one case = one real fit() run (20 %: two consecutive fit() calls on the same state with different lr / scheduler / k / "
-        "neg_batch_size): state type in {positive, complex, density matrix}, nv 1..3(4), nh 1..3, na 1..2 (10 % of the random "
+        "neg_batch_size; 40 %: a same-object history fit -> 0..2 mutations -> fit [-> ... -> fit] with mutations from "
+        "{reinitialize_parameters, rbm.initialize_parameters, re-bound nn.Parameter, network replaced via setter (also other "
+        "num_hidden), .data =, .data.copy_, copy_ under no_grad, load_state_dict, state.load(file), user's optimizer step, NaN in "
+        "left-over .grad, none, identical fit() call again}, 25 % of those steps with an in-place parameter edit made by a callback "
+        "at the start of one batch of the running fit; same callback / data / bases / args-dict objects at every call): state type in {positive, complex, density matrix}, nv 1..3(4), nh 1..3, na 1..2 (10 % of the random "
         "draws: nv, nh in 20..40), N 1..9 samples (numpy array or torch tensor), pos_batch_size / neg_batch_size equal or "
         "different, dividing N or not, k = 0..3, lr from {1e-3, 0.05, 0.3, 1.0, log-uniform}, 1..4 epochs run from starting_epoch "
         "1..3, scheduler None or StepLR(step_size 1..3, gamma), optimizer_args absent or neutral (momentum=0, weight_decay=0: still "
         "plain SGD); fixed cases that always run first: statistical law tests (positive / complex / density, k = 1, 2, 40000 "
-        "identical negative rows), two-fit histories, near-vanishing rotated amplitude (|grad| ~ 1e3), 160x160 ones-vs-zeros "
+        "identical negative rows), 23 same-object fit histories covering every mutation operator x state type (incl. fit -> "
+        "reinitialize_parameters -> fit for all three state types and identical re-fits), two-fit histories, 9 fixed + 12 random "
+        "direct compute_batch_gradients histories on one state with the same tensor objects, near-vanishing rotated amplitude (|grad| ~ 1e3), 160x160 ones-vs-zeros "
         "(|grad| > 100); then a covering grid (state type x k x batch-size pattern), then random draws; parameters from "
         "harness/gen.py with non-zero biases, bases per row from XYZ with at least one all-Z row; non-trivial := "
         "pos_batch_size != neg_batch_size and k >= 1 and >= 2 batches per epoch and (scheduler present with >= 2 epochs)")
@@ -320,7 +343,7 @@ def rand_spec(ctx, kind=None, k=None, pattern=None, large=None, second=None, his
 # library offers or tolerates.  A mutation is a JSON dict {"op": ..., ...}; ops that write values carry them
 # ("targets": {network: {parameter name: nested list}}), so that a replay applies exactly the same history.
 VALUE_OPS = ["data_assign", "data_copy", "copy_nograd"]                       # in place on the SAME nn.Parameter objects
-MUT_OPS = ["reinit", "rbm_init", "rebind", "replace_net", "load_state_dict", "state_load", "ext_step"] + VALUE_OPS
+MUT_OPS = ["reinit", "rbm_init", "rebind", "replace_net", "load_state_dict", "state_load", "ext_step", "scribble_grads"] + VALUE_OPS
 MID_OPS = VALUE_OPS + ["ext_step"]                                            # tolerated DURING a fit (from a callback)
 _COUNTER = itertools.count()
 
@@ -349,8 +372,14 @@ def rand_mutation(ctx, kind, nv, nhs, na, op=None, ops=None, wscale=1.0):
     rng = ctx.rng
     nets = _nets_of(kind)
     op = op or str(rng.choice(ops or MUT_OPS))
-    net = str(rng.choice(nets))
-    if op == "reinit":
+    # fixed histories pin the network / the parameter names:  "op@network:name1,name2"  ("first" / "last" = by position)
+    op, _, names_fixed = op.partition(":")
+    op, _, net_fixed = op.partition("@")
+    net = net_fixed if net_fixed in nets else str(rng.choice(nets))
+    if names_fixed:
+        lay = _layout_kind(kind)
+        names_fixed = [{"first": lay[0], "last": lay[-1]}.get(n, n) for n in names_fixed.split(",")]
+    if op in ("reinit", "scribble_grads"):
         return {"op": op}
     if op == "rbm_init":
         return {"op": op, "net": net, "zero_weights": bool(rng.random() < 0.25)}
@@ -365,11 +394,13 @@ def rand_mutation(ctx, kind, nv, nhs, na, op=None, ops=None, wscale=1.0):
                 "targets": {net: _net_values(ctx, kind, net, nv, nhs[net], na, wscale)}}
     if op == "state_load":
         return {"op": op, "targets": {n: _net_values(ctx, kind, n, nv, nhs[n], na, wscale) for n in nets}}
-    chosen = nets if (len(nets) > 1 and rng.random() < 0.35) else [net]
+    chosen = nets if (len(nets) > 1 and not net_fixed and rng.random() < 0.35) else [net]
     tg = {}
     for n in chosen:
         vals = _net_values(ctx, kind, n, nv, nhs[n], na, wscale)
-        if op != "load_state_dict" and rng.random() < 0.6:          # a subset of the parameters (load_state_dict needs all)
+        if names_fixed and op != "load_state_dict":
+            vals = {nm: vals[nm] for nm in vals if nm in names_fixed}
+        elif op != "load_state_dict" and rng.random() < 0.6:        # a subset of the parameters (load_state_dict needs all)
             names = list(vals)
             keep = [str(x) for x in rng.choice(names, size=int(rng.integers(1, len(names) + 1)), replace=False)]
             vals = {nm: vals[nm] for nm in names if nm in keep}
@@ -389,6 +420,12 @@ def apply_mutation(ctx, s, kind, mut):
 
     if op == "reinit":
         s.reinitialize_parameters()
+    elif op == "scribble_grads":
+        # the .grad tensors a fit left behind (views of its last gradient vectors) belong to the caller
+        for net in s.networks:
+            for q in getattr(s, net).parameters():
+                if q.grad is not None:
+                    q.grad.fill_(float("nan"))
     elif op == "rbm_init":
         if mut.get("zero_weights"):
             getattr(s, mut["net"]).initialize_parameters(zero_weights=True)
@@ -493,26 +530,37 @@ def fixed_histories(ctx):
         ("positive", [["reinit"]], False, None),
         ("complex", [["reinit"]], True, None),
         ("dm", [["reinit"]], False, None),
-        ("complex", [["rbm_init"], ["rbm_init"]], False, None),
-        ("positive", [["rebind"], ["rebind"]], True, None),
-        ("dm", [["rebind"], ["replace_net"]], False, None),
-        ("complex", [["replace_net"], ["replace_net"]], False, None),
+        ("complex", [["rbm_init@rbm_ph"], ["rbm_init@rbm_am"]], False, None),
+        ("positive", [["rebind:last"], ["rebind:first"]], True, None),            # one parameter re-bound, the others keep their objects
+        ("dm", [["rebind@rbm_am:weights_U,visible_bias"], ["replace_net@rbm_am"]], False, None),
+        ("complex", [["replace_net@rbm_am"], ["replace_net@rbm_ph"]], False, None),
         ("positive", [["replace_net"], ["data_copy"]], False, None),
-        ("dm", [["data_assign"], ["data_copy"]], False, None),
+        ("dm", [["data_assign@rbm_am"], ["data_copy@rbm_am"]], False, None),
         ("positive", [["copy_nograd"], ["load_state_dict"]], False, None),
-        ("complex", [["state_load"], ["ext_step"]], False, None),
+        ("complex", [["state_load"], ["ext_step@rbm_am"]], False, None),
         ("dm", [["state_load"], ["copy_nograd", "ext_step"]], True, None),
-        ("complex", [["data_copy"], ["load_state_dict", "rebind"]], False, None),
+        ("complex", [["data_copy@rbm_am"], ["load_state_dict", "rebind@rbm_ph:hidden_bias"]], True, None),
+        ("complex", [["rebind@rbm_ph:first"], ["rebind@rbm_am:visible_bias"]], False, None),
+        ("positive", [["data_assign"], ["data_assign:first"]], True, None),
+        ("positive", [[]], True, None),                      # the very same fit() call again (same lr / scheduler / sizes / epochs)
+        ("complex", [["data_copy"]], True, None),
+        ("dm", [[]], True, None),
         ("positive", [[], []], True, {0, 1}),                # continued training, in-place edits by a callback during the fit
         ("complex", [[]], False, {0}),
         ("dm", [["reinit"]], False, {0}),
+        ("complex", [["scribble_grads"]], False, None),
     ]
     out = []
     for i, (kind, steps, same_last, mid) in enumerate(plan):
         sp = rand_spec(ctx, kind, 1 + i % 3, ["neg_smaller", "neg_larger", "equal_nodiv", "neg_default"][i % 4], large=False, second=False)
         sp.update(epochs=2 if i % 2 == 0 else 1, starting_epoch=1, scheduler={"step_size": 1, "gamma": 0.5} if i % 3 != 2 else None)
+        if same_last:
+            sp.update(epochs=2, scheduler={"step_size": 1, "gamma": 0.5})     # the first call leaves a decayed lr behind
+        add_history(ctx, sp, steps, same_last=same_last, mid=mid)
+        if i % 2 == 1 and not same_last:
+            sp["history"][-1]["run"]["k"] = 0                                  # k = 0: the chain end is the negative batch itself
         out.append(("history:" + "+".join("/".join(o) or "continue" for o in steps) + ("+mid_fit_edit" if mid else ""),
-                    add_history(ctx, sp, steps, same_last=same_last, mid=mid)))
+                    sp))
     return out
 
 
@@ -860,6 +908,13 @@ def run_case(ctx, spec, model_every=1, label=None):
                       why="draws of a fit batch were not observable: " + str(flags["need_stat"].get("why"))[:160], fit_case=case)
         else:
             ctx.count("vk_unobserved_too_large_for_kernel_enumeration")
+        # ... and on THIS state object as its history left it (a fresh object would not carry a stale cache / handle)
+        live = R.live_snap()
+        if max(live[0][0].shape[1], live[0][0].shape[0] + (live[0][1].shape[0] if kind == "dm" else 0)) <= 8:
+            st_live = dict(st, am=gen.plist(*live[0]), ph=gen.plist(*live[1]) if len(live) > 1 else None,
+                           nh=int(live[0][0].shape[0]))
+            stat_case(ctx, st_live, sorted({flags["need_stat"]["k"], 1}), M=40000,
+                      why="draws of a fit batch were not observable; the state object after its history", fit_case=case, live_state=R.s)
 
 
 def analyse_run(ctx, spec, run, case, R, events, init_params, model_every, flags):
@@ -1176,7 +1231,7 @@ def analyse_run(ctx, spec, run, case, R, events, init_params, model_every, flags
 
 
 # ------------------------------------------------------------------------------------------ statistical law test
-def stat_case(ctx, st, ks, M=40000, why="fixed", fit_case=None):
+def stat_case(ctx, st, ks, M=40000, why="fixed", fit_case=None, live_state=None):
     """Direct compute_batch_gradients(k, data, M identical negative rows): every entry of the negative term is a mean of M
     independent [-1, 0]-valued variables; its expectation under the exact k-step kernel is computed in numpy."""
     import torch
@@ -1193,9 +1248,11 @@ def stat_case(ctx, st, ks, M=40000, why="fixed", fit_case=None):
     neg = torch.tensor(np.repeat(np.array([st["start"]], dtype=float), M, axis=0), dtype=torch.double)
     for k in ks:
         seed = ctx.torch_seed()
-        s = build_state(spec)
+        s = build_state(spec) if live_state is None else live_state
         case = {"call": "compute_batch_gradients (statistical law test)", "why": why, "state": st["state"], "nv": nv, "nh": st["nh"],
                 "na": st["na"], "am": st["am"], "ph": st["ph"], "k": k, "negative_rows": M, "start": st["start"], "torch_seed": seed}
+        if live_state is not None and fit_case is not None:
+            case["history_of_the_state_object"] = {k_: fit_case.get(k_) for k_ in SPEC_KEYS + list(SPEC_DEFAULTS)}
         ctx.case({"stat": st["state"], "k": k, "M": M, "am": st["am"], "start": st["start"]}, nontrivial=True)
         ctx.count("statistical_law_test:%s:k=%d" % (st["state"], k))
         args = (k, data, neg) if bases is None else (k, data, neg, bases)
@@ -1258,9 +1315,21 @@ def direct_history(ctx, kind, ops, k=None):
         else:
             steps.append(rand_mutation(ctx, kind, nv, nhs, na, op=o))
     seed = ctx.torch_seed()
-    case0 = dict(spec, call="compute_batch_gradients (same-object history)", k=k, samples=samples0.tolist(), neg=neg0.tolist(),
-                 bases=bases0, steps=steps[1:], torch_seed=seed)
-    ctx.case({"direct": kind, "nv": nv, "nh": nh, "na": na, "k": k, "B": B, "M": M, "ops": list(ops), "seed": seed}, nontrivial=True)
+    direct_exec(ctx, dict(spec, call="compute_batch_gradients (same-object history)", k=k, samples=samples0.tolist(), neg=neg0.tolist(),
+                          bases=bases0, steps=steps[1:], torch_seed=seed))
+
+
+def direct_exec(ctx, case0):
+    """Run one direct same-object history from its complete description (also the replay entry)."""
+    import torch
+    spec = {kk: case0[kk] for kk in ("state", "nv", "nh", "na", "am", "ph")}
+    kind, nv, k = spec["state"], spec["nv"], case0["k"]
+    samples0, neg0, bases0 = np.array(case0["samples"], dtype=float), np.array(case0["neg"], dtype=float), case0["bases"]
+    B, M = samples0.shape[0], neg0.shape[0]
+    steps = [None] + list(case0["steps"])
+    torch.manual_seed(case0["torch_seed"])
+    ctx.case({"direct": kind, "nv": nv, "nh": spec["nh"], "na": spec["na"], "k": k, "B": B, "M": M,
+              "ops": [st["op"] for st in steps[1:]], "seed": case0["torch_seed"]}, nontrivial=True)
     s = build_state(spec)
     samples_t = torch.tensor(samples0, dtype=torch.double)
     neg_t = torch.tensor(neg0, dtype=torch.double)
@@ -1297,9 +1366,13 @@ def direct_history(ctx, kind, ops, k=None):
                                    lambda: s.compute_batch_gradients(k, samples_t, neg_t, bases_batch=bases_np))
         if not ok:
             return
+        returned = list(got)
         got = [g.detach().clone().numpy().astype(float) for g in got]
         pos = s.positive_phase_gradients(samples_t) if bases_np is None else s.positive_phase_gradients(samples_t, bases_batch=bases_np)
         pos = [p.detach().numpy().astype(float) for p in pos]
+        for g in returned:                   # the caller owns what was returned: scribbling on it must not reach the next call
+            if isinstance(g, torch.Tensor) and not g.requires_grad:
+                g.fill_(float("nan"))
         if not all(np.all(np.isfinite(p)) for p in pos):
             ctx.count("skipped_nonfinite_positive_phase")
             return
@@ -1445,7 +1518,7 @@ def run(ctx):
         run_case(ctx, rand_spec(ctx, kind, k, pat, large=False))
     v2g_cases(ctx, 60 if ctx.thorough else 20)
     # 3. random stream
-    n_random = 4000 if ctx.thorough else 60
+    n_random = 4000 if ctx.thorough else 100
     for i in range(n_random):
         if time.time() - t0 > budget:
             ctx.count("random_cases_skipped_by_time_budget", n_random - i)
@@ -1510,6 +1583,11 @@ def replay(ctx, rec):
     if case.get("call") == "vector_to_grads":
         v2g_cases(ctx, 40)
         return
+    if str(case.get("call", "")).startswith("compute_batch_gradients (same-object history)"):
+        print("replay of a direct compute_batch_gradients history:", {k: case.get(k) for k in ("state", "nv", "nh", "na", "k")},
+              [st.get("op") for st in case.get("steps", [])])
+        direct_exec(ctx, {k: v for k, v in case.items() if k not in ("call_index", "k_of_this_call")})
+        return
     if str(case.get("call", "")).startswith("compute_batch_gradients (statistical"):
         print("replay of the statistical law test:", {k: case.get(k) for k in ("state", "nv", "nh", "na", "k", "negative_rows", "start")})
         import torch
@@ -1518,7 +1596,9 @@ def replay(ctx, rec):
         return
     if all(k in case for k in SPEC_KEYS):
         print("replay of fit:", {k: case[k] for k in ("state", "nv", "nh", "na", "N", "pos_batch_size", "neg_batch_size", "k", "lr", "epochs", "scheduler")},
-              "second fit:", case.get("second"))
+              "second fit:", case.get("second"),
+              "history:", [[mu.get("op") for mu in st.get("mut", [])] + (["mid:" + st["run"]["mid"]["op"]] if st["run"].get("mid") else [])
+                           for st in (case.get("history") or [])])
         run_case(ctx, _spec_of(case))
     else:
         run(ctx)
